@@ -855,6 +855,11 @@ O(id='SET_OF_encode_xer.grid', props=['C06', 'C07', 'C14'], kind='native', harne
   functions=['SET_OF_encode_xer', 'SET_OF_encode_xer_callback', 'SET_OF_xer_order'], no_canary=True,
   bound='native grid under ASan/UBSan/LSan: lists of 0..3 stub elements over 5 texts: CANONICAL-XER text sorted and independent of the order in memory; BASIC and CANONICAL with the k-th allocation (0..7) or the j-th output call (0..9) failing', timeout=600)
 
+for _x in (0, 1):
+    O(id='CHOICE_decode_oer.grid.x%d' % _x, props=['C03', 'C04', 'C05', 'C14'], kind='native', harness='harness/grid_choice_oer%d.c' % _x, entry='main',
+      functions=['CHOICE_decode_oer', 'CHOICE_free', 'oer_fetch_tag', 'oer_open_type_get'], no_canary=True,
+      bound='native grid under ASan/UBSan/LSan with the assertions of h_choice_oer.c (variant %d): every sequence of at most 3 of 9 fragments x every truncation x every two-chunk split' % _x, timeout=900)
+
 for _o in OBLIGATIONS:
     if _o.get('enforce') and _o.get('kind') in ('enforce', 'width') and _o.get('tier') == 'quick' and 'C19' not in _o['props']:
         _o['props'] = _o['props'] + ['C19']
